@@ -318,7 +318,7 @@ var propStreams = map[string][]string{
 	"C10": {"SHARE", "COMPACT", "SPARSE"},
 	"C11": {"COMPACT"},
 	"C12": {"BUILDER", "COMPACT", "CHIST"},
-	"C13": {"COUNTER", "ARITHLEN", "SPARSE"},
+	"C13": {"COUNTER", "ARITHLEN", "SPARSE", "BUILDER"},
 	"C14": {"BHIST", "CHIST"},
 	"C15": {"ARITH"},
 	"C16": {"MALFORMED"},
@@ -343,7 +343,7 @@ var propOps = map[string][]string{
 	"C10": {"share ", "css export", "css write", "sss "},
 	"C11": {"css ", "sh parsetxs"},
 	"C12": {"sq txrange", "sq blobrange", "css ranges", "css write", "css export"},
-	"C13": {"cnt ", "arith "},
+	"C13": {"cnt ", "arith ", "sq blobrange"},
 	"C14": {"css ", "b "},
 	"C15": {"arith "},
 	"C16": {},
